@@ -28,7 +28,7 @@ def tweak_resize(rng, w, i):
 
 # judged on the implementation's outcome alone (the run must return): the model would have to materialise gigabytes of
 # padding zeros, or is quadratic in the number of table entries (list-based maps) where the real code uses hash maps
-NOT_MODELLED = ("enormous declared length", "many segments in one piece", "metadata fault", "export paths beyond PATH_MAX")
+NOT_MODELLED = ("enormous declared length", "many segments in one piece", "metadata fault", "export paths beyond PATH_MAX", "more than 100000 pieces")
 
 def with_threads(w, n):
     w.threads = n
@@ -53,6 +53,13 @@ def run_worlds(worlds, jobs=None):
                 size = None if have is None else (int(have[0].split()[1].rstrip(b">")) if have[0].startswith(b"<sparse ") else len(have[0]))
                 if r.result == "ok" and size != n:
                     fails.append("c14-not-extended")
+            # the report: one progress line per piece, the k-th accounting for k pieces, the total constant (C15; a piece that is
+            # never evaluated is C05's "evaluated exactly once")
+            if r.result == "ok" and r.progress_total is not None:
+                if len(r.counters) != r.progress_total or [sum(k) for k in r.counters[-3:]] != list(range(len(r.counters) - len(r.counters[-3:]) + 1, len(r.counters) + 1)):
+                    fails += ["c15-sum", "c05-lost-or-extra"]
+            if getattr(r.world, "expect_lines", None) is not None and r.result == "ok" and len(r.counters) != r.world.expect_lines:
+                fails += ["c15-sum"]
             answers.append("agree " + ("PROPFAIL:" + ",".join(sorted(set(fails))) if fails else "prop-ok") + " not-modelled")
         else:
             answers.append(next(ans))
@@ -444,6 +451,7 @@ PROPS = {
                 worlds=lambda t, s: [W.gen_world_cross_seed(Rng(s, "c04-cross", i)) for i in range(40 if t == "quick" else 800)]
                                     + [W.gen_world_linked_cross_seed(Rng(s, "c04-linked", i)) for i in range(20 if t == "quick" else 400)]
                                     + [W.gen_world_mirrored_export(Rng(s, "c04-mirror", i)) for i in range(12 if t == "quick" else 240)]
+                                    + [W.gen_world_many_identical(Rng(s, "c04-ident", i)) for i in range(6 if t == "quick" else 60)]
                                     + fault_worlds(t, s)
                                     + worlds_default(t, s, "c04", 300, 6000, tweak_threads), post=lambda cases: drop_rewritten_under_faults(cases)),
     # C06 at run level: the work list evaluated by a run is the layout — every piece of every torrent, once (the counters' total,
@@ -456,10 +464,12 @@ PROPS = {
     # C07 at run level: torrents with the same interpreted content and different info bytes (cross-seeds) are DIFFERENT torrents,
     # each exported under the hex form of its own info-hash; the unit-level stream (hash of the exact info bytes) stays
     "C07": dict(module="TB.Props.C07", theorems=["C07_span", "C07_indep", "C07_hex_length", "C07_hex_alphabet", "C07_hex_injective"],
-                clauses=["c07-", "c12-", "c02-"],
+                clauses=["c07-", "c12-", "c02-", "c16-cli-tree"],
                 worlds=lambda t, s: [W.gen_world_cross_seed(Rng(s, "c07-cross", i)) for i in range(30 if t == "quick" else 600)]
                                     + worlds_default(t, s, "c07", 60, 1200),
-                unit_stream=lambda t, s: unit.c07_stream(t, s)),
+                unit_stream=lambda t, s: unit.c07_stream(t, s),
+                # torrent files named by 40 hex digits that are not their info-hash go through the real binary as well
+                runner=lambda ws: run_with_cli(ws, 40 if len(ws) <= 1000 else 400), with_bin=True),
     "C12": dict(module="TB.Props.C12", theorems=["C12_path", "C12_only_run", "C12_len", "C12_disjoint"], clauses=["c12-"],
                 worlds=lambda t, s: [W.gen_world_dup_path(Rng(s, "c12-dup", 0))] + [W.gen_world_infohash_prefix_pair(Rng(s, "c12-pair", i)) for i in range(2)]
                                     + worlds_default(t, s, "c12", 300, 6000, tweak_threads)
@@ -473,7 +483,8 @@ PROPS = {
                                     + resize_fault_worlds(t, s)),
     "C15": dict(module="TB.Props.C15", theorems=["C15_sum", "C15_run", "C15_dedup"], clauses=["c15-", "c16-", "c02-"],
                 worlds=lambda t, s: worlds_default(t, s, "c15", 300, 6000, tweak_threads)
-                                    + [gen_fs_sched_world(Rng(s, "c15-fs", i), i) for i in range(60 if t == "quick" else 1200)],
+                                    + [gen_fs_sched_world(Rng(s, "c15-fs", i), i) for i in range(60 if t == "quick" else 1200)]
+                                    + [W.gen_world_hundred_thousand_pieces(Rng(s, "c15-100k", i)) for i in range(1 if t == "quick" else 4)],
                 runner=lambda ws: run_with_cli(ws, 60 if len(ws) <= 1000 else 600), with_bin=True),
     "C16": dict(module="TB.Props.C16", theorems=["C16_empty", "C16_validate", "C16_piece_total_partial"], clauses=["c16-", "c03-"],
                 worlds=lambda t, s: [W.gen_world_many_segments(Rng(s, "c16-segs", i), n) for i, n in enumerate([3000, 30000] if t == "quick" else [3000, 30000, 60000])]
@@ -763,5 +774,6 @@ PROPS["C05"] = dict(module="TB.Props.C05", theorems=["C05_once", "C05_deadlock_f
                     clauses=["c05-", "c16-", "c01-", "c02-", "c04-", "c12-", "c13-", "c15-"],
                     worlds=lambda t, s: [gen_exec_world(Rng(s, "c05", i), i) for i in range(300 if t == "quick" else 6000)]
                                         + [gen_fs_sched_world(Rng(s, "c05-fs", i), i) for i in range(200 if t == "quick" else 4000)]
-                                        + [W.gen_world_same_dir_many_files(Rng(s, "c05-dir", i)) for i in range(24 if t == "quick" else 400)],
+                                        + [W.gen_world_same_dir_many_files(Rng(s, "c05-dir", i)) for i in range(24 if t == "quick" else 400)]
+                                        + [with_threads(W.gen_world_c16(Rng(s, "c05-huge", i), 9), [1, 2, 1, 3][i % 4]) for i in range(16 if t == "quick" else 160)],
                     runner=run_exec_cases)
